@@ -394,9 +394,13 @@ func (n *Tree[V]) findNode(path string, captures []string, matcher LookupMatcher
 
 	if n.catchAllChild != nil {
 		// Hit the catchall, so just assign the whole remaining path.
+		// The values are matched with the keys of the catchall node and with all
+		// captures, including the one of the catchall itself.
+		catchAllCaptures := append(captures, path)
+
 		for idx, value = range n.catchAllChild.values {
-			if match := matcher.Match(value, n.wildcardKeys, captures); match {
-				return n.catchAllChild, idx, append(captures, path), false
+			if match := matcher.Match(value, n.catchAllChild.wildcardKeys, catchAllCaptures); match {
+				return n.catchAllChild, idx, catchAllCaptures, false
 			}
 		}
 
